@@ -109,18 +109,19 @@ def _mk_object(case, divisor):
         from harness.simtransport import make_conn
         conn, t = make_conn("generic", None, stack=case["stack"], transport=name, auth_bypass=case.get("auth_bypass", False),
                             auth_username=S(u), auth_password=S(p), auth_private_key_passphrase=S(h), on_open=None,
-                            timeout_ops=case["ivl"] * divisor,
+                            timeout_ops=case["ivl"] * divisor, channel_lock=bool(case.get("channel_lock", False)),
                             **({"comms_prompt_pattern": _chan_prompt()} if case.get("drvprompt") == "c" else {}))
         return conn, conn.channel, conn._base_transport_args
     if case.get("build") == "driver":
         from scrapli.driver import AsyncDriver, Driver
         conn = (Driver if sync else AsyncDriver)(host="sim", transport=name, auth_username=S(u), auth_password=S(p),
                                                  auth_private_key_passphrase=S(h), comms_prompt_pattern=_chan_prompt(),
-                                                 timeout_ops=case["ivl"] * divisor, timeout_transport=0)
+                                                 timeout_ops=case["ivl"] * divisor, timeout_transport=0,
+                                                 channel_lock=bool(case.get("channel_lock", False)))
         return conn, conn.channel, conn._base_transport_args
     targs = _targs()
     from harness.simtransport import SimTransport
-    ch = (Channel if sync else AsyncChannel)(transport=SimTransport(targs, None), base_channel_args=BaseChannelArgs(timeout_ops=case["ivl"] * divisor))
+    ch = (Channel if sync else AsyncChannel)(transport=SimTransport(targs, None), base_channel_args=BaseChannelArgs(timeout_ops=case["ivl"] * divisor, channel_lock=bool(case.get("channel_lock", False))))
     return None, ch, targs
 
 
@@ -174,6 +175,19 @@ def strip_ansi_text(txt: bytes) -> bytes:
     return re.sub(ANSI_ESCAPE_PATTERN, b"", txt)
 
 
+BLOCKED = dict(outcome="running", writes=[], tape=[], wlog=[], lines=[], spans=[], accepted=False, closed=False, cleaned=[], blocked=True)
+
+
+def _lock_held(ch):
+    """no operation is running between two logins of a history, so a channel lock that is held now can never be acquired: the
+    login would wait for ever (= run into the timeout) without reading or writing anything"""
+    lk = getattr(ch, "channel_lock", None)
+    try:
+        return bool(lk is not None and lk.locked())
+    except Exception:
+        return False
+
+
 def _logins(case):
     """the logins performed on the one object, in order; the case's own login is the last"""
     return list(case.get("prev", [])) + [case]
@@ -186,6 +200,9 @@ def run_real_sync(case, divisor):
     conn, ch, _ = obj
     res = None
     for sub in _logins(case):
+        if _lock_held(ch):
+            res = dict(BLOCKED)
+            continue
         dev, t, clock = _attach(case, sub, obj, divisor)
         u, p, h = creds(sub)
         L.use_clock(clock)
@@ -224,6 +241,9 @@ async def run_real_async(case, divisor):
     conn, ch, _ = obj
     res = None
     for sub in _logins(case):
+        if _lock_held(ch):
+            res = dict(BLOCKED)
+            continue
         dev, t, clock = _attach(case, sub, obj, divisor)
         u, p, h = creds(sub)
         L.use_clock(clock)
@@ -343,6 +363,8 @@ def expected(case):
     u, p, h = creds(case)
     if case.get("via") == "driver" and case.get("auth_bypass"):
         return None
+    if case.get("hang"):
+        return None          # a login that is meant to end in a timeout / connection error (a step of a history)
     if case.get("err_at"):
         # transient connection errors: only the sync telnet loop survives them (it answers with a return, which a device at
         # its password prompt takes as one more wrong password); what the property still fixes is the rejecting server that
@@ -682,6 +704,53 @@ def history_cases(tier, rng):
     return out
 
 
+def lockhist_cases(tier, rng):
+    """multi-step login histories on ONE object crossed with the channel_lock option: the first attempt ends in each possible way
+    (success then close, rejected -> ScrapliAuthenticationFailed, timeout, connection error), then open() again with valid or
+    rejected credentials (and two three-step histories); sync and asyncio, telnet and ssh, loop called on the channel (both
+    builds) and through driver open()/close().  Every attempt is judged on its own."""
+    def login(fl, st, kind):
+        if fl == "telnet":
+            c = base_case("telnet", st, user_prompt="Username: ", pass_prompt="Password: ", banner="Welcome\n", max_tries=3, after_max="reprompt")
+        else:
+            c = base_case("ssh", st, pass_prompt="admin@r1's password: ", banner="Welcome\n", max_tries=3)
+        if kind == "rejected":
+            c["creds"]["password"] = "wr0ng"
+        elif kind == "hang":
+            c["hang"] = True
+            if fl == "telnet":
+                c["dev"]["needs_kick"] = 9           # a console that never wakes up: nothing to read, the login times out
+            else:
+                c["dev"]["pass_prompt"] = ""         # the ssh client prints a warning and then nothing
+                c["dev"]["pre"] = "Warning: Permanently added 'r1' (ED25519) to the list of known hosts.\n"
+        elif kind == "connerr":
+            c["hang"] = True
+            if fl == "telnet":
+                c["creds"]["password"] = "wr0ng"
+                c["dev"].update(max_tries=1, after_max="close")    # the server hangs up after the first rejection
+            else:
+                c["dev"]["fatal"] = FATAL_UNHANDLED[0]              # "Connection refused": the client exits
+        c["cuts"] = rng.choice([["all"], ["one"], ["list", [5, 3, 9, 2, 40, 7, 40]]])
+        return c
+    seqs = [(a, b) for a in ("ok", "rejected", "hang", "connerr") for b in ("ok", "rejected")]
+    seqs += [("rejected", "hang", "ok"), ("connerr", "rejected", "ok")]
+    combos = [(fl, st, "channel", b) for fl in ("telnet", "ssh") for st in ("sync", "async") for b in ("args", "driver")]
+    combos += [("telnet", "sync", "driver", "args"), ("telnet", "async", "driver", "args"), ("ssh", "sync", "driver", "args")]
+    out = []
+    for fl, st, via, build in combos:
+        for lock in (True, False):
+            for seq in seqs:
+                subs = [login(fl, st, k) for k in seq]
+                last = subs[-1]
+                last.update(via=via, build=build, channel_lock=lock, ivl=(0 if st == "sync" else 1) if via == "driver" else 1)
+                if via == "driver":
+                    last["drvprompt"] = "c"
+                last["prev"] = [{k: v for k, v in x.items() if k in ("dev", "creds", "cuts", "on_empty", "dts", "eof", "budget", "hang")}
+                                for x in subs[:-1]]
+                out.append(last)
+    return out
+
+
 TAILS = ["see <https://noc.example.net/helpdesk>", "mail noc@example.net/helpdesk#", "cost centre (ops/tier-2)$",
          "escalate to ops:tier-2>", "ticket queue net-ops/r1.lab#"]
 FILLER = ["This system is for authorised use only.", "All activity on this device is recorded and may be audited", "Scheduled maintenance every first Sunday 02:00-04:00 UTC",
@@ -935,7 +1004,8 @@ def run(tier, seed):
                "passphrase) x cut schedule (whole, 1-byte, every single and double cut of the output stream for the short dialogues, "
                "PRNG cut lists) x clock script for empty reads x sync/async x channel built as BaseChannelArgs() or by Driver()/AsyncDriver() with default arguments x loop called "
                "directly or through driver.open() x long pre-login banners (1x, 2x, 5x comms_prompt_search_depth, default and small configured depth, lines ending in prompt-like "
-               "text, every alignment, delivered in reads of their own before the login prompt) x histories of 1..4 logins on ONE object (ok / re-prompted / rejected / passphrase). "
+               "text, every alignment, delivered in reads of their own before the login prompt) x histories whose first attempt ends in success+close / rejection / timeout / connection error followed by open() again, "
+               "with channel_lock on and off x histories of 1..4 logins on ONE object (ok / re-prompted / rejected / passphrase). "
                "Non-trivial = at least one credential write and at least two reads; distinct by the full case record. Each case runs "
                "the real login loop over a causal device and the Lean model on the recorded read tape; the oracle judges the "
                "device-side log (state, bytes written) and the exception class.")
@@ -979,6 +1049,8 @@ def run(tier, seed):
         cases.append(c); streams.append("history")
     for c in longbanner_cases(tier, ck.rng):
         cases.append(c); streams.append("longbanner")
+    for c in lockhist_cases(tier, ck.rng):
+        cases.append(c); streams.append("lockhist")
     nrand = 1500 if tier == "quick" else 30000
     for i in range(nrand):
         st = "clean" if i % 10 < 5 else ("prefixy" if i % 10 < 8 else "outdomain")
@@ -1020,7 +1092,8 @@ def run(tier, seed):
                           f"outcome={res['outcome'].split(':')[0]}", f"reads={min(len(res['tape']) // 10 * 10, 100)}+",
                           "empty-reads" if any(e[0] == "c" and not e[1] for e in res["tape"]) else "no-empty-reads",
                           f"conn-errors={min(sum(1 for e in res['tape'] if e[0] == 'E'), 3)}",
-                          f"via={case.get('via')}", f"build={case.get('build')}", f"logins-on-object={len(case.get('prev', [])) + 1}"))
+                          f"via={case.get('via')}", f"build={case.get('build')}", f"logins-on-object={len(case.get('prev', [])) + 1}",
+                          f"channel_lock={bool(case.get('channel_lock'))}"))
             viol = oracle(case, res)
             if viol:
                 rec = {"case": case, "stream": stream, "what": viol, "outcome": res["outcome"],
